@@ -12,7 +12,7 @@ from fractions import Fraction
 import common as C
 
 ID = "C17"
-COQ_TARGETS = ["Properties/C17.vo"]
+COQ_TARGETS = ["Properties/C17.vo", "GenFacts/InstantSrcFacts.vo"]
 MODEL_TARGETS = ["Model/Instant.vo"]
 IMPORTS = ("From Ka Require Import Model.Instant.\nOpen Scope string_scope.\nOpen Scope Z_scope.\n")
 TRUSTED_EXTRA = ["CPython's datetime/timedelta (C module) — external; tied to Model/Calendar.v + Model/Instant.v "
